@@ -237,6 +237,9 @@ def run(model, col, tier):
     # the runner looks the entry point up in the *linked program* - a function of an imported module is as good an entry
     # point as one of the root module
     nslr_run = model.func("nslr.py", "run")
+    from ..sem import expand_module_helpers as _xmh163
+
+    nslr_run = _xmh163(model, "nslr.py", nslr_run)  # e.g. an extracted `_LinkProgram(name)` is read in place
     progs = {t.id for n in ast.walk(nslr_run) if isinstance(n, ast.Assign) and isinstance(n.value, ast.Call) and last_attr(n.value) == "Link" for t in n.targets if isinstance(t, ast.Name)}
     lookups = []
     for n in ast.walk(nslr_run):
